@@ -102,6 +102,28 @@ def check_one(arg):
                           "Directive/Comment node kinds differ: %r" % bad, rep))
         if fp.canon_repr(dr.tree).replace("Directive(", "Comment(") != fp.canon_repr(keep.tree):
             fails.append(("directive_changes_tree", "tree with process_directives differs by more than node type", rep))
+    # the same source through a FortranFileReader with the same options: the same trees (whatever is checked through a
+    # string reader is checked through a file reader too)
+    if v % 2 == 0:
+        import os
+        import shutil
+        import tempfile
+        d = tempfile.mkdtemp(prefix="verif_c11_")
+        try:
+            pth = os.path.join(d, "prog.f90")
+            with open(pth, "w") as fh:
+                fh.write(src)
+            for tag, kw, want in (("ignore", dict(ignore_comments=True), ign), ("keep", dict(ignore_comments=False), keep),
+                                  ("directives", dict(ignore_comments=False, process_directives=True), dr),
+                                  ("directives_default_ignore", dict(process_directives=True), dr)):
+                rdf = fp.FortranFileReader(pth, **kw)
+                rdf.set_format(fp.FortranFormat(True, False))
+                o = fp.parse(src, std=std, rd=rdf)
+                if want.kind == "tree" and (o.kind != "tree" or fp.canon_repr(o.tree) != fp.canon_repr(want.tree)):
+                    fails.append(("file_reader_differs:" + tag, "FortranFileReader(%s) gives %s, a tree different from the string "
+                                  "reader's" % (kw, o.kind), dict(rep, reader="file", options=tag)))
+        finally:
+            shutil.rmtree(d, ignore_errors=True)
     return fails
 
 
